@@ -4,6 +4,7 @@ import (
 	"fmt"
 	"math/rand"
 	"strings"
+	"time"
 
 	"github.com/opsidian/parsley/ast"
 	"github.com/opsidian/parsley/ast/interpreter"
@@ -11,6 +12,7 @@ import (
 	"github.com/opsidian/parsley/parser"
 	"github.com/opsidian/parsley/parsley"
 	"github.com/opsidian/parsley/text"
+	"github.com/opsidian/parsley/text/terminal"
 
 	"verifharness/internal/run"
 )
@@ -28,6 +30,8 @@ type c13m struct { // mirror node
 	caps     int // bit0 checker, bit1 transformer
 	sel      int // >= 0: the node is bound to the library's own interpreter.Select(sel) (no callbacks of the harness)
 	node     parsley.Node
+	val      interface{} // typed terminal leaves: the value the node was constructed with (hasVal)
+	hasVal   bool
 }
 
 type c13world struct {
@@ -50,6 +54,7 @@ type c13world struct {
 	// leaves of the user's own non-comparable node type, by id
 	userLeaves map[int]*c13m
 	nUser      int
+	nTyped     int
 	nBoth      int
 }
 
@@ -148,7 +153,7 @@ func (w *c13world) gen(d int) *c13m {
 			e := w.leaves[w.r.Intn(len(w.leaves))]
 			w.nextID--
 			w.dupLeaves++
-			return &c13m{id: e.id, sel: -1, kind: e.kind, node: e.node}
+			return &c13m{id: e.id, sel: -1, kind: e.kind, node: e.node, val: e.val, hasVal: e.hasVal}
 		}
 		defer func() { w.leaves = append(w.leaves, m) }()
 		switch {
@@ -163,6 +168,34 @@ func (w *c13world) gen(d int) *c13m {
 			w.userLeaves[m.id] = m
 			w.nUser++
 			return m
+		case w.r.Intn(4) == 0:
+			// a leaf of one of the library's TYPED terminal node types (each has its own copy of Schema / Pos / ...)
+			sc, p := fmt.Sprintf("S%d", m.id), parsley.Pos(m.id)
+			m.hasVal = true
+			switch w.r.Intn(7) {
+			case 0:
+				m.val = int64(m.id)
+				m.node = terminal.NewIntegerNode(sc, int64(m.id), p, p)
+			case 1:
+				m.val = float64(m.id)
+				m.node = terminal.NewFloatNode(sc, float64(m.id), p, p)
+			case 2:
+				m.val = m.id%2 == 0
+				m.node = terminal.NewBoolNode(sc, m.id%2 == 0, p, p)
+			case 3:
+				m.val = nil
+				m.node = terminal.NewNilNode(sc, p, p)
+			case 4:
+				m.val = rune('a' + m.id%26)
+				m.node = terminal.NewCharNode(sc, rune('a'+m.id%26), p, p)
+			case 5:
+				m.val = fmt.Sprint(m.id)
+				m.node = terminal.NewStringNode(sc, fmt.Sprint(m.id), p, p)
+			default:
+				m.val = time.Duration(m.id) * time.Second
+				m.node = terminal.NewTimeDurationNode(sc, time.Duration(m.id)*time.Second, p, p)
+			}
+			w.nTyped++
 		default:
 			m.node = ast.NewTerminalNode(fmt.Sprintf("S%d", m.id), "t", m.id, parsley.Pos(m.id), parsley.Pos(m.id))
 		}
@@ -310,11 +343,11 @@ func c13shape(w *c13world, nd parsley.Node) string {
 	if nd == nil {
 		return "<nil>"
 	}
-	if strings.HasPrefix(nd.Token(), "T") {
-		return nd.Token()
-	}
 	if m := w.lookup(nd); m != nil {
 		return fmt.Sprintf("L%d", m.id)
+	}
+	if strings.HasPrefix(nd.Token(), "T") { // the terminal a transformer put in a node's place ("T<id>")
+		return nd.Token()
 	}
 	return "?"
 }
@@ -453,6 +486,7 @@ func c13one(j run.Job, a *run.Acc, caseSeed int64) {
 		a.Count("nodes bound to the library's own interpreter.Select", int64(w.nSel))
 		a.Count("leaves equal to an earlier leaf of the same tree (same object / same empty position)", int64(w.dupLeaves))
 		a.Count("leaves of a user-defined, non-comparable node type", int64(w.nUser))
+		a.Count("leaves of the library's typed terminal node types", int64(w.nTyped))
 		a.Count("user-defined nodes that are both a non-terminal and Walkable", int64(w.nBoth))
 
 		// ---- Walk: post-order, every node once, stops right after the first true
@@ -639,6 +673,8 @@ func c13one(j run.Job, a *run.Acc, caseSeed int64) {
 					return nil
 				case m.kind == 2 && m.sel >= 0:
 					return valueOf(m.kids[m.sel])
+				case m.hasVal:
+					return m.val
 				}
 				return m.id
 			}
